@@ -732,17 +732,7 @@ func c04r7(c *Check) {
 				bad = "RW." + f + " does not come from regexp.Compile"
 				continue
 			}
-			sl, ok := call.Call.Args[0].(*ssa.Slice)
-			okSl := ok && sl.X == base
-			if okSl {
-				lo, ok1 := constInt(sl.Low)
-				okSl = ok1 && lo == 1
-				if bo, ok := sl.High.(*ssa.BinOp); !ok || bo.Op != token.SUB || !isLenOf(bo.X, base) {
-					okSl = false
-				} else if k, ok := constInt(bo.Y); !ok || k != 1 {
-					okSl = false
-				}
-			}
+			okSl := isInnerOfSpec(call.Call.Args[0], base) || innerOfSpecByHelper(call, base)
 			if !okSl {
 				bad = "the expression compiled for RW." + f + " is not " + p + " without its enclosing slashes"
 			}
@@ -760,4 +750,133 @@ func c04r7(c *Check) {
 		}
 		c.Judge(bad == "", "rewriter.New RW."+f+" = nil | Compile("+p+"[1:len-1])", c.AtFn(fn), "nil for literal rules, the compiled inner expression for /…/ rules", bad)
 	}
+}
+
+// isInnerOfSpec: v is base[1 : len(base)-1] — the specification without its first and last byte.
+func isInnerOfSpec(v, base ssa.Value) bool {
+	sl, ok := v.(*ssa.Slice)
+	if !ok || sl.X != base || sl.Max != nil {
+		return false
+	}
+	if lo, ok := constInt(sl.Low); !ok || lo != 1 {
+		return false
+	}
+	bo, ok := sl.High.(*ssa.BinOp)
+	if !ok || bo.Op != token.SUB || !isLenOf(bo.X, base) {
+		return false
+	}
+	k, ok := constInt(bo.Y)
+	return ok && k == 1
+}
+
+// innerOfSpecByHelper: the expression handed to regexp.Compile is result i of a helper of the same package applied to
+// the specification (regexSpec(old) (expr, ok)) that returns, on every path, either (param[1:len-1], …, true) or a
+// constant together with false, and the Compile call runs only on the true edge of a test of that boolean result — so
+// whatever is compiled is the specification without its first and last byte, exactly as in the inline form.
+func innerOfSpecByHelper(compile *ssa.Call, base ssa.Value) bool {
+	ex, ok := compile.Call.Args[0].(*ssa.Extract)
+	if !ok {
+		return false
+	}
+	hc, ok := ex.Tuple.(*ssa.Call)
+	if !ok {
+		return false
+	}
+	h := hc.Call.StaticCallee()
+	if h == nil || h.Blocks == nil || fnPkg(h) != fnPkg(compile.Parent()) || hc.Call.IsInvoke() {
+		return false
+	}
+	argIdx := -1
+	for ai, a := range hc.Call.Args {
+		if a == base {
+			argIdx = ai
+		}
+	}
+	if argIdx < 0 || argIdx >= len(h.Params) {
+		return false
+	}
+	hp := ssa.Value(h.Params[argIdx])
+	res := h.Signature.Results()
+	okIdx := -1
+	for i := 0; i < res.Len(); i++ {
+		if b, isB := res.At(i).Type().Underlying().(*types.Basic); isB && b.Kind() == types.Bool && i != ex.Index {
+			if okIdx >= 0 {
+				return false
+			}
+			okIdx = i
+		}
+	}
+	if okIdx < 0 {
+		return false
+	}
+	// every return of the helper: (inner, true) or (constant, false); phis are resolved per predecessor pair-wise
+	nRet, good := 0, true
+	allInstrs(h, func(in ssa.Instruction) {
+		ret, isRet := in.(*ssa.Return)
+		if !isRet {
+			return
+		}
+		nRet++
+		type pair struct{ e, b ssa.Value }
+		work := []pair{{ret.Results[ex.Index], ret.Results[okIdx]}}
+		for steps := 0; len(work) > 0 && steps < 64; steps++ {
+			p := work[0]
+			work = work[1:]
+			pe, isPe := p.e.(*ssa.Phi)
+			pb, isPb := p.b.(*ssa.Phi)
+			switch {
+			case isPe && isPb && pe.Block() == pb.Block():
+				for i := range pe.Edges {
+					work = append(work, pair{pe.Edges[i], pb.Edges[i]})
+				}
+				continue
+			case isPe && !isPb:
+				for i := range pe.Edges {
+					work = append(work, pair{pe.Edges[i], p.b})
+				}
+				continue
+			case isPb && !isPe:
+				for i := range pb.Edges {
+					work = append(work, pair{p.e, pb.Edges[i]})
+				}
+				continue
+			case isPe && isPb:
+				good = false
+				continue
+			}
+			bv, isK := constBool(p.b)
+			if !isK {
+				good = false
+				continue
+			}
+			if bv {
+				if !isInnerOfSpec(p.e, hp) {
+					good = false
+				}
+			} else if _, isC := p.e.(*ssa.Const); !isC {
+				good = false
+			}
+		}
+		if len(work) > 0 {
+			good = false
+		}
+	})
+	if nRet == 0 || !good {
+		return false
+	}
+	// the Compile call is reached only over the true edge of a test of the helper's boolean result
+	for _, r := range *hc.Referrers() {
+		bx, isEx := r.(*ssa.Extract)
+		if !isEx || bx.Index != okIdx {
+			continue
+		}
+		for _, rr := range *bx.Referrers() {
+			if iff, isIf := rr.(*ssa.If); isIf && len(iff.Block().Succs) == 2 {
+				if edgeDominates(iff.Block(), iff.Block().Succs[0], compile.Block()) {
+					return true
+				}
+			}
+		}
+	}
+	return false
 }
